@@ -1618,8 +1618,8 @@ theorem TInv.timerOk {s : State} {τ : Timer} (h : TInv s.now s.target.closedAt 
   unfold Timers.timerOk
   rw [hearly, hsent, hshot, hnoerr, hfin, hcl, hacc, hpan, hmis]; rfl
 
-theorem Inv.ok {s : State} (h : Inv s) : ok s = true := by
-  unfold Timers.ok
+theorem Inv.ok1 {s : State} (h : Inv s) : ok1 s = true := by
+  unfold Timers.ok1
   rw [Bool.and_eq_true, List.all_eq_true]
   refine ⟨fun τ hτ => (h.tinv τ hτ).timerOk, ?_⟩
   unfold targetOk
